@@ -42,6 +42,13 @@ func (b Bound) text() string {
 		return "$two[*]"
 	case "none":
 		return "$two[*] ? (@ > 99)"
+	case "var":
+		// a number that reaches the subscript as a document-style value (float64 or
+		// json.Number, depending on the decoding), not as a path literal
+		return "$f" + strings.NewReplacer("-", "m", ".", "_").Replace(FormatNum(b.F))
+	case "guardedfail0":
+		// index 0, guarded by a predicate whose operand contains a nested subscript that fails under suppression
+		return `0 ? (($two["x"] == 1) is unknown)`
 	case "arr1":
 		// a one-element array holding a number is an array, not a single number (the
 		// subscript expression is not unwrapped)
@@ -140,8 +147,10 @@ func evalBound(b Bound, arr []any) (int64, bool) {
 		return n - 1 - b.I, true
 	case "lastplus":
 		return n - 1 + b.I, true
-	case "guarded0":
+	case "guarded0", "guardedfail0":
 		return 0, true
+	case "var":
+		return trunc(b.F)
 	case "inner_last", "inner_first":
 		// $[0] must be (lax: or behave as) an array whose selected element is one number
 		if len(arr) == 0 {
@@ -184,6 +193,9 @@ func checkSubscriptFacts(c SubscriptCase) (*Violation, subFacts) {
 		ev = &Ev{Prop: "C14"}
 	}
 	vars := map[string]string{"two": "[1,2]", "one": "[1]", "nest": "[[0],1]"}
+	for _, f := range varBoundValues {
+		vars["f"+strings.NewReplacer("-", "m", ".", "_").Replace(FormatNum(f))] = FormatNum(f)
+	}
 	o := Opts{HasVars: true, Vars: vars, UseNumber: c.UseNumber}
 	got := RunQuery(context.Background(), p, doc, o.Options(o.VarsValue())...)
 	if got.Panic != "" {
@@ -286,6 +298,8 @@ func checkSubscriptFacts(c SubscriptCase) (*Violation, subFacts) {
 	return violf("%s: slice arithmetic gives %v but Query returned %v", at, w, g), f
 }
 
+var varBoundValues = []float64{-0.5, -0.9, 0.5, 1.9, 2.5, -1.5, 1, 0}
+
 func subscriptBounds(full bool) []Bound {
 	var bs []Bound
 	for i := int64(-2); i <= 6; i++ {
@@ -295,7 +309,8 @@ func subscriptBounds(full bool) []Bound {
 		Bound{Kind: "last"}, Bound{Kind: "lastminus", I: 1}, Bound{Kind: "lastminus", I: 2}, Bound{Kind: "lastplus", I: 1})
 	if full {
 		bs = append(bs, Bound{Kind: "str"}, Bound{Kind: "big"}, Bound{Kind: "negbig"}, Bound{Kind: "multi"}, Bound{Kind: "none"}, Bound{Kind: "null"}, Bound{Kind: "bool"},
-			Bound{Kind: "num", F: 2147483647.5}, Bound{Kind: "num", F: 2147483648.5}, Bound{Kind: "num", F: 1e300}, Bound{Kind: "inner_last"}, Bound{Kind: "inner_first"}, Bound{Kind: "guarded0"}, Bound{Kind: "arr1"}, Bound{Kind: "arr2"}, Bound{Kind: "nested1"})
+			Bound{Kind: "num", F: 2147483647.5}, Bound{Kind: "num", F: 2147483648.5}, Bound{Kind: "num", F: 1e300}, Bound{Kind: "inner_last"}, Bound{Kind: "inner_first"}, Bound{Kind: "guarded0"}, Bound{Kind: "arr1"}, Bound{Kind: "arr2"}, Bound{Kind: "nested1"}, Bound{Kind: "guardedfail0"})
+		bs = append(bs, Bound{Kind: "var", F: -0.5}, Bound{Kind: "var", F: 1.9})
 	}
 	return bs
 }
@@ -335,8 +350,15 @@ func TestC14(t *testing.T) {
 	t.Run("exhaustive", func(t *testing.T) {
 		b := ev.enum(t)
 		full := subscriptBounds(true)
-		small := []Bound{{Kind: "int", I: 0}, {Kind: "int", I: 1}, {Kind: "int", I: 5}, {Kind: "last"}, {Kind: "int", I: -1}, {Kind: "str"}, {Kind: "guarded0"}, {Kind: "arr1"}}
+		small := []Bound{{Kind: "int", I: 0}, {Kind: "int", I: 1}, {Kind: "int", I: 5}, {Kind: "last"}, {Kind: "int", I: -1}, {Kind: "str"}, {Kind: "guarded0"}}
+		extra := []Bound{{Kind: "arr1"}, {Kind: "guardedfail0"}, {Kind: "var", F: -0.5}}
+		if thorough() {
+			small, extra = append(small, extra...), nil
+		}
 		var lists [][]SubSpec
+		for _, f := range varBoundValues {
+			lists = append(lists, []SubSpec{{From: Bound{Kind: "var", F: f}}})
+		}
 		for _, x := range full {
 			lists = append(lists, []SubSpec{{From: x}})
 			for _, y := range full {
@@ -355,6 +377,13 @@ func TestC14(t *testing.T) {
 		for _, e1 := range entries {
 			for _, e2 := range entries {
 				lists = append(lists, []SubSpec{e1, e2})
+			}
+		}
+		// quick tier: the three remaining bound kinds next to every single entry, on either side
+		for _, x := range extra {
+			for _, y := range small {
+				y := y
+				lists = append(lists, []SubSpec{{From: x}, {From: y}}, []SubSpec{{From: y}, {From: x}}, []SubSpec{{From: y, To: &y}, {From: x}}, []SubSpec{{From: x}, {From: y, To: &y}})
 			}
 		}
 		i := 0
